@@ -363,7 +363,15 @@ func checkUnionNode(w *World, r *Result) {
 			good = true
 		}
 		if id := identOf(rs.X); id != nil {
-			ds, _ := defsThroughAny(w, afi, objOf(info, id))
+			ds, wh := defsThroughAny(w, afi, objOf(info, id))
+			for k, d := range ds {
+				// an argument at a call site: follow the caller's variable to its definitions
+				if aid := identOf(d); aid != nil && k < len(wh) {
+					for _, d2 := range defsIn(wh[k].Pkg.TypesInfo, wh[k].Decl, objOf(wh[k].Pkg.TypesInfo, aid)) {
+						ds = append(ds, d2)
+					}
+				}
+			}
 			for _, d := range ds {
 				if ix, ok := ast.Unparen(d).(*ast.IndexExpr); ok && strings.HasSuffix(es(ix.X), ".unions") {
 					good = true
